@@ -6,4 +6,4 @@ From Scenic Require Import C08.Relations C08.Prune C08.Visibility.
 Extraction Language OCaml.
 Extraction "model.ml" match_bounds dist_clamp rh_clamp rh_range rh_overlap erode_iterations
   buffer_iterations_asis buffer_iterations_fixed visibility_bound max_erosion
-  max_distance_between vis_bound rh_overlap_fixed Qred.
+  max_distance_between vis_bound rh_overlap_fixed buffer_box Qred.
